@@ -65,6 +65,12 @@ KIND_PROTO = {"select": "proto_select", "insert": "proto_insert", "update": "pro
 # static part
 # ----------------------------------------------------------------------------------------------
 
+def io_census(tlog):
+    sites = sorted(set(l[7:] for l in tlog.splitlines() if l.startswith("IOSITE ")))
+    esc = sorted(set(l[9:] for l in tlog.splitlines() if l.startswith("IOESCAPE ")))
+    return {"file_handle_uses": sites, "escapes_counted_as_write_sites": esc}
+
+
 def run_translator():
     rc, out = vlib.sh(["go", "run", ".", "-repo", vlib.REPO, "-out", os.path.join(vlib.COQ, "Gen")],
                       cwd=GEN_DIR, env=vlib.GOENV, timeout=300)
@@ -121,6 +127,31 @@ def recheck_coq(ctx, translator_ok, translator_log):
         "theorem_names": [n for n in names if n.startswith("C13")],
     })
     return failed, cb
+
+
+def evaluate_io():
+    """which classified callees / write sites break the soundness conditions of Spec/IoSpec.v on the census
+    regenerated from the source (independent of Properties/C13.v)"""
+    text = """From Coq Require Import List String.
+From Mkdb Require Import Spec.IoSpec Gen.IoSites.
+Import ListNotations.
+Local Open Scope string_scope.
+Definition io_verdict := Eval vm_compute in io_classification_ok io_sites reaches_data_write reaches_log_write classified.
+Print io_verdict.
+Definition bad_classes := Eval vm_compute in
+  map (fun fc => (fst fc, snd fc, lookup (fst fc) reaches_data_write, lookup (fst fc) reaches_log_write))
+      (filter (fun fc => negb (class_ok reaches_data_write reaches_log_write fc)) classified).
+Print bad_classes.
+Definition bad_sites := Eval vm_compute in filter (fun s => negb (site_ok classified s)) io_sites.
+Print bad_sites.
+"""
+    rc, out = vlib.run_coq_text("c13_io", text, timeout=300)
+    ok = rc == 0 and re.search(r"io_verdict\s*=\s*true", out) is not None
+    detail = " ".join(out.split())
+    m = re.search(r"bad_classes = (.*?) : list", detail)
+    m2 = re.search(r"bad_sites = (.*?) : list", detail)
+    return rc == 0, ok, {"callees_breaking_their_class": m.group(1) if m else "?",
+                         "write_sites_outside_their_class": m2.group(1) if m2 else "?"}
 
 
 def evaluate_checker():
@@ -268,6 +299,11 @@ def run(ctx):
                                 "extracted from the source of: %s (%s)" % (
                                     ", ".join(rejected),
                                     "; ".join("%s = %s" % (k, protos.get("proto_" + k, "?")) for k in rejected)))
+    io_ran, io_ok, io_detail = evaluate_io() if tok else (False, False, {})
+    if tok and not io_ok:
+        ctx.proof_broken.insert(0, "C13_classification_sound fails: a callee that the protocol extraction treats as not "
+                                "writing can reach a write of the data file or the log, or a write site lies outside the "
+                                "classified writers: %s" % json.dumps(io_detail))
     search = bool(ctx.proof_broken)
 
     # ---- 2. dynamic run ----------------------------------------------------------------------
@@ -304,11 +340,17 @@ def run(ctx):
 
     # ---- 2b. statement bodies never write the data file (timer off, file compared around every body) ----
     body_cfg = {"tables": 9 if ctx.tier == "quick" else 16, "rows": 24 if ctx.tier == "quick" else 120}
-    okb2, bouts, blg = vlib.run_driver(ctx.bins["storage"], "c13body", [body_cfg])
-    if not okb2 or len(bouts) != 1 or bouts[0].get("err"):
-        raise RuntimeError("c13body driver failed: " + (blg[-1500:] if not bouts else str(bouts[0].get("err"))))
-    body_steps = bouts[0]["steps"]
+    # the same with page caches of 12 / 20 / 40 pages and no flush between the rows: the statement's dirty set fills
+    # the cache (no clean page left to evict) - the body may fail with ErrLRUCacheFull but must not write
+    body_cfgs = [body_cfg] + [{"tables": 2, "rows": 60 if ctx.tier == "quick" else 200, "cache": cap, "flush_every": 0}
+                              for cap in (12, 20, 40)]
+    okb2, bouts, blg = vlib.run_driver(ctx.bins["storage"], "c13body", body_cfgs)
+    if not okb2 or len(bouts) != len(body_cfgs) or any(b.get("err") for b in bouts):
+        raise RuntimeError("c13body driver failed: " + (blg[-1500:] if len(bouts) != len(body_cfgs)
+                                                         else str([b.get("err") for b in bouts])))
+    body_steps = [dict(s, cfg=cfg) for cfg, b in zip(body_cfgs, bouts) for s in b["steps"]]
     body_writes = [s for s in body_steps if s["changed"]]
+    cache_full = sum(1 for s in body_steps if "cache" in (s.get("err") or "").lower())
 
     # ---- 3. correspondence: observed call sequences are paths of the extracted protocols --------
     traced = [s for r in results for s in r["steps"]
@@ -347,7 +389,7 @@ def run(ctx):
             "replay_cmd": "python3 tools/check.py C13 --replay <this file>"})
     for s in body_writes[:1]:
         out["spec_violations"].append({
-            "case": {"c13body": body_cfg}, "observed": s,
+            "case": {"c13body": s.get("cfg", body_cfg)}, "observed": s,
             "what": "the data file was written inside the shared-lock part of a statement (%s): only flushPages, under the "
                     "exclusive lock, may write it" % s["what"],
             "expected": "data file unchanged (size and SHA-256) across createTable / Insert / Update / MarkDeleted / FlushWALBatch",
@@ -401,6 +443,7 @@ def run(ctx):
         "writes_seen_while_parked": len(s1),
         "statement_bodies_compared_with_timer_off": len(body_steps),
         "statement_bodies_that_wrote_the_data_file": len(body_writes),
+        "statement_bodies_refused_with_a_full_cache_of_dirty_pages": cache_full,
         "ticker_alive_in_idle_windows": "%d of %d" % (alive, idle),
         "race_detector": "on (-race, GORACE halt_on_error=0)" if race_mode else "UNAVAILABLE (non-race fallback)",
         "race_reports_inside_property": len(inside),
@@ -412,6 +455,8 @@ def run(ctx):
         "driver_wall_s": [r["wall"] for r in results],
         "translator_changed_protocol_file": changed,
         "checker_verdicts": verdicts,
+        "io_classification_sound": io_ok,
+        "io_census": io_census(tlog),
         "call_classification": classes,
         "exhaustive": False,
         "samples": [{"protocol": k, "extracted": v} for k, v in sorted(protos.items())],
